@@ -10,10 +10,12 @@
 package aa
 
 //@ func boolToInt
+//@   opt prop=C11
 //@   pure
 //@   ensures result == ite(b, 1, 0)
 
 //@ func compare
+//@   opt prop=C11
 //@   pure
 //@   case int:
 //@     lemma refl:    compare(x, x) == 0
@@ -40,6 +42,7 @@ package aa
 //@     lemma ident:   imp(compare(x, y) == 0, x == y)
 
 //@ func (Qualifier).Compare
+//@   opt prop=C11
 //@   pure
 //@   lemma refl:    Qualifier.Compare(x, x) == 0
 //@   lemma antisym: sign(Qualifier.Compare(x, y)) == -sign(Qualifier.Compare(y, x))
@@ -47,10 +50,192 @@ package aa
 //@   lemma ident:   imp(Qualifier.Compare(x, y) == 0, x == y)
 
 //@ func (Qualifier).Equal
+//@   opt prop=C11
 //@   pure
 //@   ensures result == (r.Audit == o.Audit && r.AccessType == o.AccessType)
 
+//@ func (MountConditions).Compare
+//@   opt prop=C11
+//@   pure
+//@   lemma refl:    MountConditions.Compare(x, x) == 0
+//@   lemma antisym: sign(MountConditions.Compare(x, y)) == -sign(MountConditions.Compare(y, x))
+//@   lemma trans:   imp(MountConditions.Compare(x, y) <= 0 && MountConditions.Compare(y, z) <= 0, MountConditions.Compare(x, z) <= 0)
+//@   lemma ident:   imp(MountConditions.Compare(x, y) == 0, x == y)
+
+//@ func (AddressExpr).Compare
+//@   opt prop=C11
+//@   pure
+//@   lemma refl:    AddressExpr.Compare(x, x) == 0
+//@   lemma antisym: sign(AddressExpr.Compare(x, y)) == -sign(AddressExpr.Compare(y, x))
+//@   lemma trans:   imp(AddressExpr.Compare(x, y) <= 0 && AddressExpr.Compare(y, z) <= 0, AddressExpr.Compare(x, z) <= 0)
+//@   lemma ident:   imp(AddressExpr.Compare(x, y) == 0, x == y)
+
+//@ func getLetterIn
+//@   opt prop=C11
+//@   pure
+//@   loop 1 invariant true
+//@   loop 1 decreases len(alphabet) - iter(1)
+
+// Order laws of every Rule.Compare (C11): reflexive, antisymmetric, transitive and
+// zero only on identical rules (all fields but the embedded Base). The obligations are
+// generated from the SSA of each method by self-composition.
+//@ func (*All).Compare
+//@   opt prop=C11
+//@   requires typeIs(other, "*All")
+//@   assigns nothing
+//@   orderlaws
+
+//@ func (*Capability).Compare
+//@   opt prop=C11
+//@   requires typeIs(other, "*Capability")
+//@   assigns nothing
+//@   orderlaws
+
+//@ func (*ChangeProfile).Compare
+//@   opt prop=C11
+//@   requires typeIs(other, "*ChangeProfile")
+//@   assigns nothing
+//@   orderlaws
+
+//@ func (*Dbus).Compare
+//@   opt prop=C11
+//@   requires typeIs(other, "*Dbus")
+//@   assigns nothing
+//@   orderlaws
+
+//@ func (*File).Compare
+//@   opt prop=C11
+//@   requires typeIs(other, "*File")
+//@   assigns nothing
+//@   orderlaws
+
+//@ func (*Link).Compare
+//@   opt prop=C11
+//@   requires typeIs(other, "*Link")
+//@   assigns nothing
+//@   orderlaws
+
+//@ func (*IOUring).Compare
+//@   opt prop=C11
+//@   requires typeIs(other, "*IOUring")
+//@   assigns nothing
+//@   orderlaws
+
+//@ func (*Mount).Compare
+//@   opt prop=C11
+//@   requires typeIs(other, "*Mount")
+//@   assigns nothing
+//@   orderlaws
+
+//@ func (*Umount).Compare
+//@   opt prop=C11
+//@   requires typeIs(other, "*Umount")
+//@   assigns nothing
+//@   orderlaws
+
+//@ func (*Remount).Compare
+//@   opt prop=C11
+//@   requires typeIs(other, "*Remount")
+//@   assigns nothing
+//@   orderlaws
+
+//@ func (*Mqueue).Compare
+//@   opt prop=C11
+//@   requires typeIs(other, "*Mqueue")
+//@   assigns nothing
+//@   orderlaws
+
+//@ func (*Network).Compare
+//@   opt prop=C11
+//@   requires typeIs(other, "*Network")
+//@   assigns nothing
+//@   orderlaws
+
+//@ func (*PivotRoot).Compare
+//@   opt prop=C11
+//@   requires typeIs(other, "*PivotRoot")
+//@   assigns nothing
+//@   orderlaws
+
 //@ func (*Ptrace).Compare
+//@   opt prop=C11
 //@   requires typeIs(other, "*Ptrace")
 //@   assigns nothing
 //@   orderlaws
+
+//@ func (*Rlimit).Compare
+//@   opt prop=C11
+//@   requires typeIs(other, "*Rlimit")
+//@   assigns nothing
+//@   orderlaws
+
+//@ func (*Signal).Compare
+//@   opt prop=C11
+//@   requires typeIs(other, "*Signal")
+//@   assigns nothing
+//@   orderlaws
+
+//@ func (*Unix).Compare
+//@   opt prop=C11
+//@   requires typeIs(other, "*Unix")
+//@   assigns nothing
+//@   orderlaws
+
+//@ func (*Userns).Compare
+//@   opt prop=C11
+//@   requires typeIs(other, "*Userns")
+//@   assigns nothing
+//@   orderlaws
+
+//@ func (*Comment).Compare
+//@   opt prop=C11
+//@   requires typeIs(other, "*Comment")
+//@   assigns nothing
+//@   orderlaws
+//@   opt identical=withbase   // a comment is its Base.Comment text
+
+//@ func (*Abi).Compare
+//@   opt prop=C11
+//@   requires typeIs(other, "*Abi")
+//@   assigns nothing
+//@   orderlaws
+
+//@ func (*Alias).Compare
+//@   opt prop=C11
+//@   requires typeIs(other, "*Alias")
+//@   assigns nothing
+//@   orderlaws
+
+//@ func (*Include).Compare
+//@   opt prop=C11
+//@   requires typeIs(other, "*Include")
+//@   assigns nothing
+//@   orderlaws
+
+//@ func (*Variable).Compare
+//@   opt prop=C11
+//@   requires typeIs(other, "*Variable")
+//@   assigns nothing
+//@   orderlaws
+
+//@ func (*Profile).Compare
+//@   opt prop=C11
+//@   requires typeIs(other, "*Profile")
+//@   assigns nothing
+//@   orderlaws
+//@   noident   // sibling blocks are required to have distinct names; rules inside are not compared
+
+//@ func (*Hat).Compare
+//@   opt prop=C11
+//@   requires typeIs(other, "*Hat")
+//@   assigns nothing
+//@   orderlaws
+//@   noident   // sibling blocks are required to have distinct names; rules inside are not compared
+
+// Comparator of Rules.Sort over rules of mixed kinds. Calls through the Rule interface use
+// the interface-level contract (Kind is the constant of the dynamic type; Compare on two
+// rules of the same dynamic type satisfies the order laws proved per kind above).
+//@ func (Rules).Sort$1
+//@   opt prop=C11
+//@   sortlaws
+
